@@ -257,7 +257,7 @@ pub fn conv_case(u: &mut Unstructured<'_>) -> R<(&'static str, ConvCase)> {
                 other => other,
             };
             prop = match m {
-                Malform::WsBeforeName { .. } | Malform::WsInName { .. } | Malform::WsBeforeColon { .. } | Malform::BadContentLength { .. } => "C16",
+                Malform::WsBeforeName { .. } | Malform::WsInName { .. } | Malform::WsBeforeColon { .. } | Malform::BadContentLength { .. } | Malform::ContentLengthLinesDisagree { .. } => "C16",
                 _ => "C10",
             };
             r.mal = Some(m);
